@@ -838,7 +838,10 @@ class Inliner:
             ys = [n for n in own_walk(g.node) if isinstance(n, (ast.Yield, ast.YieldFrom))]
             if not ys or any(isinstance(n, ast.YieldFrom) for n in ys) or len(ys) > 3:
                 return None
-            if any(isinstance(n, (ast.Try, ast.With, ast.Global, ast.Nonlocal, ast.Await)) or (isinstance(n, ast.Return) and n.value is not None) for n in own_walk(g.node)):
+            if any(isinstance(n, (ast.Try, ast.Global, ast.Nonlocal, ast.Await)) or (isinstance(n, ast.Return) and n.value is not None) for n in own_walk(g.node)):
+                return None
+            # a `with` block that is over before anything is yielded runs the same inlined; one that is suspended across a yield does not
+            if any(isinstance(n, ast.With) and any(isinstance(y, (ast.Yield, ast.YieldFrom)) for y in ast.walk(n)) for n in own_walk(g.node)):
                 return None
             if nested_def_names(g.node) or sum(1 for _ in own_walk(g.node)) > 200:
                 return None
@@ -859,11 +862,30 @@ class Inliner:
                         setattr(st, fld, block(getattr(st, fld)))
                 for h in getattr(st, "handlers", []) or []:
                     h.body = block(h.body)
-                if isinstance(st, ast.For) and not st.orelse and isinstance(st.iter, ast.Call) and isinstance(st.target, ast.Name):
+                if isinstance(st, ast.For) and not st.orelse and isinstance(st.iter, ast.Call) and (isinstance(st.target, ast.Name) or (
+                        isinstance(st.target, ast.Tuple) and all(isinstance(t_, ast.Name) for t_ in st.target.elts))):
                     q = sc.resolve_call(st.iter)
                     g = generator(q) if q else None
                     from .normalize2 import own_jumps
-                    if g is not None and q != fi.qualname and not own_jumps(st.body) and me.same_scope_stmt(g, fi, sc):
+
+                    def jumps_ok(g_):
+                        # `continue` / `break` of the consuming loop mean the same in the producer's loop when the single yield is the last
+                        # statement of the producer's only loop, and (for break) that loop is the last statement of the producer
+                        js = own_jumps(st.body)
+                        if not js:
+                            return True
+                        gb = body_without_doc(g_.node)
+                        loops = [x for x in gb if isinstance(x, ast.For)]
+                        if len(loops) != 1 or loops[0].orelse or any(isinstance(y, ast.Yield) for x in gb if x is not loops[0] for y in ast.walk(x)):
+                            return False
+                        lp = loops[0]
+                        last = lp.body[-1] if lp.body else None
+                        if not (isinstance(last, ast.Expr) and isinstance(last.value, ast.Yield)) or sum(1 for y in ast.walk(lp) if isinstance(y, ast.Yield)) != 1:
+                            return False
+                        if any(isinstance(j, ast.Break) for j in js) and gb[-1] is not lp:
+                            return False
+                        return True
+                    if g is not None and q != fi.qualname and jumps_ok(g) and me.same_scope_stmt(g, fi, sc):
                         try:
                             binding = bind_call(g.node, st.iter, skip_first=False)
                         except Bail:
@@ -880,7 +902,7 @@ class Inliner:
                                 res = []
                                 for x in ss:
                                     if isinstance(x, ast.Expr) and isinstance(x.value, ast.Yield):
-                                        res.append(ast.Assign(targets=[ast.Name(id=st.target.id, ctx=ast.Store())], value=x.value.value))
+                                        res.append(ast.Assign(targets=[copy.deepcopy(st.target)], value=x.value.value))
                                         res.extend(copy.deepcopy(st.body))
                                         continue
                                     if isinstance(x, ast.Return):
@@ -1895,6 +1917,7 @@ def normalize(project) -> List[str]:
             if id(fn) in fi_of and any(isinstance(x, ast.Call) and isinstance(x.func, (ast.Name, ast.Attribute)) and (x.func.id if isinstance(x.func, ast.Name) else x.func.attr) == "reduce" for x in ast.walk(fn)):
                 n += unfold_reduce(fn, _Scope(project, fi_of[id(fn)]).resolve)
             n += hoist_lambda_calls(fn)
+            n += _n2mod.expand_sliced_star(fn)
             n += simplify_defensive(fn)
             n += recover_loops(fn)
             n += recover_loops(fn)      # (an index loop recovered from a while loop is looked at again once it is part of the tree)
